@@ -425,6 +425,8 @@ def step (d : DState) (line : String) : DState × String :=
     | _ => (d, "bad-op")
   | ["rend"] => (d, sOutcome d.run.outcome ++ " ;; " ++ sList sPub d.run.stream)
   | ["rstream"] => (d, sList sPub d.run.stream)
+  -- the lifecycle telemetry (StepStateChanged) of the published stream, in order (C35)
+  | ["rlife"] => (d, sList sPub (d.run.stream.filter (fun p => match p with | .stepState _ _ _ _ _ => true | _ => false)))
   | ["rticks"] => (d, sList (fun p => sTick p.1) d.run.log)
   | ["rlog"] => (d, sList (fun p => s!"{p.2} {sTick p.1}") d.run.log)
   | _ => (d, "bad-op")
